@@ -148,3 +148,54 @@ pub fn extends(before: &[String], after: &[String]) -> Option<String> {
     }
     None
 }
+
+/// The stitching rule of the format, evaluated on the independently decoded state (no conserve
+/// code): own entries of `band`; if it has no tail, continue with the nearest earlier band that
+/// has a readable head, keeping entries after the last path taken; stop at a band with a tail.
+pub fn expected_listing(state: &[String], band: u32) -> Vec<DecEntry> {
+    let st = state_map(state);
+    let head_ok = |b: u32| st.get(&format!("{}/BANDHEAD", band_name(b))).map(|v| v.starts_with("head:")).unwrap_or(false);
+    let has_tail = |b: u32| st.contains_key(&format!("{}/BANDTAIL", band_name(b)));
+    let mut out: Vec<DecEntry> = Vec::new();
+    let mut last: Option<String> = None;
+    let mut cur = Some(band);
+    let mut first = true;
+    while let Some(b) = cur {
+        if first || head_ok(b) {
+            if head_ok(b) {
+                for (_, e) in band_entries(&st, b) {
+                    let after = match &last {
+                        None => true,
+                        Some(l) => crate::c11::doc_cmp(&e.apath, l) == std::cmp::Ordering::Greater,
+                    };
+                    if after {
+                        out.push(e);
+                    }
+                }
+                if let Some(e) = out.last() {
+                    last = Some(e.apath.clone());
+                }
+            }
+            if has_tail(b) {
+                break;
+            }
+        }
+        first = false;
+        // nearest earlier band with a head file
+        cur = (0..b).rev().find(|c| st.contains_key(&format!("{}/BANDHEAD", band_name(*c))) && st.get(&format!("{}/BANDHEAD", band_name(*c))).map(|v| v != "dir").unwrap_or(false));
+        if let Some(c) = cur {
+            if !head_ok(c) {
+                // exists but unreadable: skipped with an error, the walk goes on below it
+                let mut d = c;
+                loop {
+                    match (0..d).rev().find(|x| st.contains_key(&format!("{}/BANDHEAD", band_name(*x)))) {
+                        Some(x) if head_ok(x) => { cur = Some(x); break }
+                        Some(x) => { d = x; if has_tail(x) { cur = None; break } }
+                        None => { cur = None; break }
+                    }
+                }
+            }
+        }
+    }
+    out
+}
